@@ -252,6 +252,53 @@ pub fn oracle(case: &Case) -> Verdict {
             Err(e) => vfail!("reencode-error", "encode_with_dist_header_multi: {e:?}"),
         }
     }
+    // (2c) received through a distribution-header frame (the control tuple in front resolves its atoms through the
+    // header, the node-local identifiers in the payload are opaque): decode with an atom cache, re-encode the payload
+    {
+        let ctl = Value::Tuple(vec![Value::int(2), Value::atom(""), Value::atom("rex"), Value::atom("ok")]);
+        let mut sc = refmodel::dist::SenderCache::default();
+        let mut k = 7u16;
+        let mut slot_of = |a: &str| {
+            k = k.wrapping_mul(31).wrapping_add(a.len() as u16 + 3);
+            Some(k % 2048)
+        };
+        let (hb, _) = refmodel::dist::sender_encode_opts(&ctl, Some(v), &mut sc, &mut slot_of, &mut VecPicker::new(&case.choices), true);
+        // node-local spans of the frame, found by an independent walk over the terms behind the header
+        let mut pc = refmodel::dist::PeerCache::default();
+        if let Ok((refs, used)) = refmodel::dist::hdr_read(&hb[2..], &mut pc) {
+            let atoms: Vec<String> = refs.iter().map(|r| r.atom.clone()).collect();
+            let body = &hb[2 + used..];
+            let mut d = refmodel::etf::Dec::new(body);
+            d.atoms = Some(&atoms);
+            d.record_spans = true;
+            if d.term().is_ok() && d.term().is_ok() {
+                let locals: Vec<Vec<u8>> = d.spans.iter().filter(|s| s.local).map(|s| span_bytes(body, s).to_vec()).collect();
+                if !locals.is_empty() {
+                    let mut cache = erltf::AtomCache::new();
+                    match erltf::decode_with_atom_cache(&hb, &mut cache) {
+                        Ok((_, Some(pt))) => match erltf::encode(&pt) {
+                            Ok(b2) => {
+                                let count = |hay: &[u8], needle: &[u8]| -> usize { hay.windows(needle.len()).filter(|w| *w == needle).count() };
+                                for sb in &locals {
+                                    if count(&b2, sb) < count(body, sb) {
+                                        vfail!(
+                                            "identifier-bytes-changed",
+                                            "node-local identifier {} received in a distribution-header frame (behind control atoms taken from the atom cache) is not re-emitted unchanged: {}",
+                                            hex(sb),
+                                            hex(&b2[..b2.len().min(300)])
+                                        );
+                                    }
+                                }
+                            }
+                            Err(e) => vfail!("reencode-error", "payload of a header frame: {e:?}"),
+                        },
+                        Ok((_, None)) => vfail!("valid-encoding-rejected", "header frame decoded without its payload"),
+                        Err(e) => vfail!("valid-encoding-rejected", "decode_with_atom_cache failed {e:?} on a conforming header frame {}", hex(&hb[..hb.len().min(200)])),
+                    }
+                }
+            }
+        }
+    }
     // (3) conversion sequence
     let mut cur = t.clone();
     let mut expect_body: Vec<u8> = b1[1..].to_vec();
